@@ -162,6 +162,22 @@ pub fn adjust(cfg: &mut SwarmCfg, tier: &str, r: &mut Prng) {
                 cfg.same_storage_rejoin = true;
             }
         }
+        "C16" => {
+            cfg.oracles = sv(&["agreement", "observer"]);
+            cfg.faults = sv(&["N-FLIP", "N-TRUNC", "N-RACE", "N-REORD"]);
+            cfg.encrypt_handshake = false;
+            cfg.knobs.push(("ext-sender".into(), 1));
+            cfg.knobs.push(("no-gce".into(), 1));
+            setw(cfg, "observe", 10);
+            setw(cfg, "obs_feed", 40);
+            setw(cfg, "obs_corrupt", 12);
+            setw(cfg, "obs_snapshot", 4);
+            setw(cfg, "obs_propose", 6);
+            setw(cfg, "commit", 14);
+            setw(cfg, "propose", 8);
+            setw(cfg, "send_app", 10);
+            setw(cfg, "crash", 0);
+        }
         "C06" => {
             cfg.oracles = sv(&["agreement", "restore"]);
             cfg.faults = sv(&["P-CRASH", "N-REORD", "N-DUP", "N-RACE", "N-STALE", "crash-with-pending"]);
@@ -221,6 +237,18 @@ pub fn extra_kinds(w: &World, kinds: &mut Vec<(&'static str, u32)>) {
     }
     if w.cfg.weight("byz") > 0 && w.live_members(g).len() >= 2 {
         kinds.push(("byz", w.cfg.weight("byz")));
+    }
+    if w.cfg.weight("observe") > 0 {
+        let n = w.ext.observers.len();
+        if n < 2 {
+            kinds.push(("observe", w.cfg.weight("observe")));
+        }
+        if n > 0 {
+            kinds.push(("obs_feed", w.cfg.weight("obs_feed")));
+            kinds.push(("obs_corrupt", w.cfg.weight("obs_corrupt")));
+            kinds.push(("obs_snapshot", w.cfg.weight("obs_snapshot")));
+            kinds.push(("obs_propose", w.cfg.weight("obs_propose")));
+        }
     }
     if w.cfg.weight("bad_join") > 0 && !w.groups[g].log.is_empty() {
         kinds.push(("bad_join", w.cfg.weight("bad_join")));
@@ -327,6 +355,54 @@ pub fn extra_action(w: &mut World, kind: &str) -> Option<Action> {
                 m,
             })
         }
+        "observe" => Some(Action::Special {
+            kind: "observe".into(),
+            a: g as u64,
+            b: w.prng.below(8),
+            c: 0,
+        }),
+        "obs_feed" => {
+            let k = w.prng.usize_below(w.ext.observers.len().max(1));
+            Some(Action::Special {
+                kind: "obs_feed".into(),
+                a: k as u64,
+                b: w.prng.below(64),
+                c: 0,
+            })
+        }
+        "obs_snapshot" => Some(Action::Special {
+            kind: "obs_snapshot".into(),
+            a: w.prng.usize_below(w.ext.observers.len().max(1)) as u64,
+            b: 0,
+            c: 0,
+        }),
+        "obs_propose" => Some(Action::Special {
+            kind: "obs_propose".into(),
+            a: w.prng.usize_below(w.ext.observers.len().max(1)) as u64,
+            b: w.prng.below(2),
+            c: w.prng.usize_below(w.parties.len()) as u64,
+        }),
+        "obs_corrupt" => {
+            let k = w.prng.usize_below(w.ext.observers.len().max(1));
+            let ids: Vec<u64> = w.msgs.iter().filter(|(_, m)| !m.private && m.kind != MsgKind::App).map(|(i, _)| *i).collect();
+            if ids.is_empty() {
+                return None;
+            }
+            let lo = ids.len().saturating_sub(6);
+            let id = ids[lo + w.prng.usize_below(ids.len() - lo)];
+            let len = w.msgs[&id].bytes.len().max(1) as u64;
+            let c = if w.prng.chance(3, 4) {
+                (w.prng.below(len) << 4) | (w.prng.below(8) << 1)
+            } else {
+                (w.prng.below(len) << 4) | 1
+            };
+            Some(Action::Special {
+                kind: "obs_corrupt".into(),
+                a: k as u64,
+                b: id,
+                c,
+            })
+        }
         "bad_join" => {
             let variant = w.prng.below(3);
             let n = w.parties.len();
@@ -386,6 +462,9 @@ pub fn extra_action(w: &mut World, kind: &str) -> Option<Action> {
 }
 
 pub fn adjust_commit(w: &mut World, _p: usize, _g: usize, spec: &mut CommitSpec) {
+    if w.cfg.knob("no-gce").is_some() {
+        spec.gce = None;
+    }
     if let Some(d) = w.cfg.knob("detached") {
         if w.prng.chance(1, d) {
             spec.detached = true;
@@ -423,6 +502,9 @@ pub fn prop_spec_override(
     _g: usize,
     _opts: &mut Vec<u32>,
 ) -> Option<PropSpec> {
+    if w.cfg.knob("no-gce").is_some() && _opts.len() > 3 {
+        _opts[3] = 0;
+    }
     if w.cfg.knob("psk") == Some(2) && w.prng.chance(1, 3) {
         return Some(if w.prng.chance(1, 2) {
             PropSpec::ExtPsk {
@@ -465,6 +547,17 @@ pub fn setup(w: &mut World) -> VResult<()> {
             for p in 0..w.parties.len() {
                 w.parties[p].pskstore.put(&[b'k', id], &value);
             }
+        }
+    }
+    if w.cfg.knob("ext-sender").is_some() {
+        use mls_rs::CipherSuiteProvider;
+        let csp = w.idgen_suite();
+        if let Ok((sk, pk)) = csp.signature_key_generate() {
+            let sid = mls_rs::identity::SigningIdentity::new(
+                mls_rs::identity::basic::BasicCredential::new(b"observer".to_vec()).into_credential(),
+                pk,
+            );
+            w.ext.ext_sender = Some((sk, sid));
         }
     }
     w.create_group(0)?;
